@@ -156,7 +156,12 @@ def int_values(nbytes, signed, tier, small=False):
 def int_invalid(nbytes, signed):
     bits = nbytes * 8
     lo, hi = (-(1 << (bits - 1)), (1 << (bits - 1)) - 1) if signed else (0, (1 << bits) - 1)
-    return [lo - 1, hi + 1, 1 << 64, -(1 << 64), 1 << 70, None, "1", b"\x01", 1.5, [1], {"a": 1}, (1,)]
+    import decimal
+    import fractions
+
+    # ... and numbers that are EQUAL to a valid value (and hash like it) without being an integer
+    return [lo - 1, hi + 1, 1 << 64, -(1 << 64), 1 << 70, None, "1", b"\x01", 1.5, [1], {"a": 1}, (1,),
+            1.0, 0.0, float(hi) if nbytes <= 4 else 4096.0, decimal.Decimal(1), fractions.Fraction(1, 1), fractions.Fraction(0)]
 
 
 def real_patterns(nbytes, tier, small=False):
@@ -745,6 +750,14 @@ def structtag_layouts():
                 for f in (0, -1, 0x0186, 0x0100, 0x0002, 0x7E79) for m in range(16)]
         return lib, desc, vals
     out.append(("bools-over-visible-host", L5))
+
+    def L6():  # several private padding members of one type under one (empty) name, between and behind the visible members
+        S, sd = atom("USINT"); I, idd = atom("UINT")
+        members = [("a", I, idd, 0), ("", S, sd, 2), ("", S, sd, 3), ("b", I, idd, 4), ("", S, sd, 6), ("c", I, idd, 8), ("", S, sd, 10)]
+        lib, desc = build(12, members, [], [""])
+        vals = [{"a": 0x1111, "b": 0x2222, "c": 0x3333}, {"a": 0, "b": 65535, "c": 1}, {"a": 65535, "b": 0, "c": 0x8000}]
+        return lib, desc, vals
+    out.append(("same-named-private-members", L6))
     return out
 
 
